@@ -358,3 +358,31 @@ def mutate_shipped(rng, text: str, n: int = 3) -> str:
             continue
         text = re.sub(r"\b%s\b" % re.escape(old), new, text)
     return text
+
+
+_ASSIGN_LINE = re.compile(r"^([A-Za-z_]\w*) = (.+)$")
+
+
+def edit_formulas(rng, text: str, n: int = 2) -> str:
+    """An *edited sibling* of a model: same names, same dependency sets, same layout of
+    the text, but n right-hand sides changed (the user edited an equation and reloads
+    the file in a long-lived process)."""
+    lines = text.split("\n")
+    cands = []
+    for i, ln in enumerate(lines):
+        m = _ASSIGN_LINE.match(ln)
+        if not m or "ScalarParam" in ln:
+            continue
+        rhs = m.group(2)
+        body = rhs.split(" #")[0]
+        if body.count("(") != body.count(")") or body.rstrip().endswith((",", "+", "-", "*", "/")):
+            continue
+        cands.append(i)
+    rng.shuffle(cands)
+    for i in sorted(cands[:n]):
+        m = _ASSIGN_LINE.match(lines[i])
+        rhs = m.group(2)
+        body, sep, tail = rhs.partition(" #")
+        form = rng.choice(["(%s)*1.5", "(%s) + 0.25", "-(%s)", "2*(%s) - 1"])
+        lines[i] = "%s = %s%s%s" % (m.group(1), form % body.strip(), sep, tail)
+    return "\n".join(lines)
